@@ -942,6 +942,14 @@ def _local_trace(frame, event, arg):
         s = RT.sched
         t = s.by_ident.get(sk.REAL_GET_IDENT())
         if t is not None and not s.teardown:
+            hot = s.knobs.get("hot")
+            if hot:
+                q = hot.get(frame.f_code.co_name)
+                if q and t.state == sk.RUNNABLE and not t.killed:
+                    if s.dec.pick(["n", "y"], [1.0 - q, q], "n") == "y":
+                        RT.run.line_preempts += 1
+                        s.yield_("line")
+                        return _local_trace
             t.line_gap -= 1
             if t.line_gap <= 0:
                 RT.run.line_preempts += 1
@@ -958,7 +966,7 @@ def _global_trace(frame, event, arg):
 
 def on_task_start(t):
     s = RT.sched
-    if s.knobs["line_q"] > 0 and t.proc.pid == 100:
+    if (s.knobs["line_q"] > 0 or s.knobs.get("hot")) and t.proc.pid == 100:
         t.line_gap = s.dec.gap(s.knobs["line_q"])
         sys.settrace(_global_trace)
     if not t.is_py_thread:
